@@ -125,11 +125,6 @@ Definition all_or_none (s : sstate) (data : list (key * value)) : bool :=
 (* the operation instances on which the Redis store takes the specified step *)
 Definition redis_safe (s : sstate) (o : op) : bool :=
   match o with
-  | ORemovePod p =>
-      match v_get_nodes_by_pod (s_view s) p [] true with
-      | inl [] => s_mem s (KPod p)
-      | _ => true
-      end
   | OAddNode nd ca cert ky =>
       match lookup (s_view s) (KPod (n_pod nd)) with
       | Some (VPod _ _) => all_or_none s (add_node_data nd ca cert ky)
@@ -141,7 +136,7 @@ Definition redis_safe (s : sstate) (o : op) : bool :=
   | OSetNodeStatus n p ttl => if 0 <? ttl then s_mem s (KNode n) else true
   | OSetWorkloadStatus st a e n ttl =>
       if status_args_bad a e n then true
-      else if ttl =? 0 then s_mem s (KWl (ws_id st)) else 0 <? ttl
+      else 0 <=? ttl
   | OAddWorkload w pr =>
       match w_parse w with
       | None => true
